@@ -42,6 +42,10 @@ EXPRS = ['1', '0', '-1', '2.5', '1E30', '"s"', '""', 'i%', 'l&', 's!', 'd#', 't$
          'INT("a")', 'ABS(t$)', 'SGN(r)', 'CINT(t$)', 'CLNG(1E30)', 'RND', 'RND(1)', 'RND("a")', 'TIMER', 'TIMER(1)', 'INKEY$', 'PEEK(1)', 'PEEK(t$)', 'SPACE$(t$)', 'STRING$(1)', 'STRING$(2, t$)', 'STRING$(2, 65)',
          'LCASE$(1)', 'UCASE$(t$)', 'LTRIM$(1)', 'ERR', 'ERL', 'ERR(1)', 'i%%', 'i%.a', 't$(1)', '1 2', '', ')', '(', ',', 'THEN', 'TO', 'i% +', '+', '"unterminated', '"caf\u00e9"', '1E38 * 1E38 - 1E38 * 1E38', '0 * (1E38 * 1E38)', '1 / 0', '1D308 * 10#',
          '"s" + 1', '1 + "s"', '-"s"', 'NOT "s"', '"a" < 1', '"a" AND 1', '((1D308 * 10) - (1D308 * 10)) MOD 2', 'NOT ((1D308 * 10) - (1D308 * 10))', '((1D308 * 10) - (1D308 * 10)) \\ 2', '1 AND ((1D308 * 10) - (1D308 * 10))',
+         # constant operators at the boundaries of the integral types (what a folder computes must fit what it emits)
+         'NOT 1E10', 'NOT 3000000000#', 'NOT 2147483647.6#', 'NOT -1E10', 'NOT 32767.6', '-(-2147483648)', '- -32768', '-(32768)', '1E10 AND 1', '1E10 OR 1',
+         '3000000000# XOR 1', '1E10 MOD 7', '1E10 \\ 3', 'ABS(-2147483648)', 'CINT(1E10)', 'CLNG(1E10)', 'INT(1E10)', '2147483647 + 1', '-2147483648 - 1', '2147483647& * 2', '65536 * 65536',
+         '+i%', '+l&', '+arr(1)', '+r.a', '+t$', 'f1%(l&)', 'f1%(+l&)', 'f1%(arr(1))', 'f1%(ra(1).a)', 'f1%(m2(1, 1))', 'f1%(f1%(1))',
          '-32768', '-32768%', '32768', '2147483648', '-2147483648', '&H8000', '&HFFFFFFFF', '&H100000000', '&O777777', '.', '1.', '.5E', '1E', '5#!']
 LVS = ['i%', 'l&', 's!', 'd#', 't$', 'r', 'r.a', 'r.b', 'r.zz', 'arr', 'arr(1)', 'arr(1, 2)', 'arr(t$)', 'sarr$(1)', 'm2(1, 1)', 'ra(1)', 'ra(1).a', 'ra(1).b', 'ra.a', 'undef', 'undef(1)', 'f1%', 'p0', 'lbl', '1', '"s"', 'i% + 1', '', 'RND', 'TIMER', 'ERR', 'LEN(t$)']
 LABELS = ['lbl', 'nodata', 'nosuch', '10', '99999', '0', '1', '-1', 'p0', 'i%', '', '"l"']
@@ -69,6 +73,14 @@ TEMPLATES = [
 ]
 # whole programs whose shape no template placement produces (use before definition, definitions after procedures, limits)
 WHOLE = [
+ # reported by the sub-agents that seeded C05-4 / C06-4 (all repaired)
+ 'IF i% THEN\nELSEIF i% THEN NEXT\nEND IF\n', 'IF i% THEN\nELSEIF i% THEN FOR k = 1 TO 2\nEND IF\n', 'IF i% THEN\nELSEIF i% THEN IF i% THEN WEND\nEND IF\n',
+ 'IF i% THEN\nELSEIF i% THEN DIM zz\nEND IF\n', 'IF i% THEN\nELSEIF i% THEN ELSE\nEND IF\n', 'IF i% THEN\nELSEIF i% THEN END IF\n',
+ 'CONST n = "x"\nx = n\n', 'CONST n = "x"\nDIM a(n)\n', 'CONST n = "x"\nPRINT n; LEN(n)\n', 'CONST n = "x"\nCALL s(n)\nEND\nSUB s(t$)\nPRINT t$\nEND SUB\n',
+ 'SUB s\nDIM a(n)\nEND SUB\nCONST n = "x"\n', 'CONST n% = "x"\n', 'CONST n$ = 1\nPRINT n$\n', 'CONST a = 1\nDIM a\n', 'CONST a = 1\nDIM a AS STRING\n', 'DIM a\nCONST a = 1\n',
+ 'DIM a(' + ', '.join(['0 TO 0'] * 256) + ')\n', 'DIM a(' + ', '.join(['0 TO 0'] * 255) + ')\n', 'n = 0\nDIM a(' + ', '.join(['n'] * 256) + ')\n', 'DIM a(1)\nPRINT a(' + ', '.join(['1'] * 256) + ')\n',
+ 'CALL s(f&(1))\nEND\nSUB s(a AS INTEGER)\nPRINT a\nEND SUB\nFUNCTION f&(x)\nf& = 7\nEND FUNCTION\n', 'CALL s(f&)\nEND\nSUB s(a AS INTEGER)\nPRINT a\nEND SUB\nFUNCTION f&\nf& = 7\nEND FUNCTION\n',
+ 'x = INSTR("abc", 5)\n', 'x = ((((((((((1))))))))))\n',
  'CALL s\nEND\nSUB s\nPRINT c$\nEND SUB\nCONST c$ = "abc"\n',
  'CALL s\nEND\nSUB s\nPRINT c%\nx = c% + 1\nEND SUB\nCONST c% = 7\n',
  'PRINT f$\nEND\nFUNCTION f$\nf$ = k$ + k$\nEND FUNCTION\nCONST k$ = "q"\n',
